@@ -400,6 +400,7 @@ CONTRACTS.append(_sn)
 
 # --------------------------------------------------------------------------- concatenate (C10)
 ISCLOSE_RTOL = Fraction(1, 10 ** 5)
+ZONE_ACCEPT_INV = 10 ** 6          # "fits": off by at most 1e-6 of a sample / channel (rounded doubles)
 REJECT = ("ValueError", "TypeError")
 
 
@@ -435,9 +436,32 @@ def spec_concatenate(c, signals, axis=0):
     freq_axis = radio and ((axis == 1 and not isinstance(axis, bool)) or axis == "freq")
     if axis == "freq" and not radio:
         raise PyExc(REJECT, "frequency axis needs radio signals")
-    for g in gs:
-        c.raise_if(V.Not(u_isclose(g0.sr.val, g.sr.val)), REJECT, "sample rates differ")
+    # The statement fixes two zones for every comparison of metadata between pieces: a piece whose time /
+    # frequency / sample-rate metadata is off by at least one sample or one channel MUST be rejected; pieces
+    # that fit (exactly, in real arithmetic; within ZONE_ACCEPT of a sample / channel for rounded doubles) MUST
+    # be joined.  In between the statement is silent ("ANY").  The tolerances the code happens to use
+    # (astropy's relative 1e-5, Time.isclose's 2 ulp of a day) are not part of the contract.
+    def zone(reject, accept, why, case=None):
+        if c.branch(reject, f"must reject: {why}"):
+            if case:
+                c.tag(case)
+            raise PyExc(REJECT, why)
+        if not c.branch(accept, f"must accept: {why}"):
+            raise PyExc("ANY", f"between fitting and off by one sample/channel: {why}")
+
+    for g in gs[1:]:
+        # a rate mismatch that accumulates to a sample over the piece is a perturbation by one sample
+        drift = V.mul(_absv(V.sub(g.sr.val, g0.sr.val)), g.N)
+        coarse = V.Not(u_isclose(g0.sr.val, g.sr.val))
+        if c.branch(coarse, "sample rates differ by more than 1e-5"):
+            raise PyExc(REJECT, "sample rates differ")
+        zone(V.le(g0.sr.val, drift), V.le(V.mul(drift, ZONE_ACCEPT_INV), g0.sr.val), "sample rates differ", case="rate-or-bandwidth-mismatch-below-1e-5")
     ref = None
+    nd0 = gs[0].data.ndim
+    if isinstance(axis, int) and not isinstance(axis, bool) and axis < 0:
+        axis = axis + nd0          # NumPy's meaning of a negative axis
+        time_axis = axis == 0
+        freq_axis = radio and axis == 1
     if time_axis:
         n = 0
         for g in gs:
@@ -445,8 +469,8 @@ def spec_concatenate(c, signals, axis=0):
                 if ref is None:
                     ref = V.sub(g.t0.sec, V.div(ctx, n, g0.sr.val))
                 else:
-                    gap = V.sub(V.add(ref, V.div(ctx, n, g0.sr.val)), g.t0.sec)
-                    c.raise_if(V.lt(TAU_T, _absv(gap)), REJECT, "not contiguous in time")
+                    gap = _absv(V.sub(V.add(ref, V.div(ctx, n, g0.sr.val)), g.t0.sec))
+                    zone(V.And(V.le(1, V.mul(gap, g0.sr.val)), V.lt(TAU_T, gap)), V.And(V.le(gap, TAU_T), V.le(V.mul(V.mul(gap, g0.sr.val), ZONE_ACCEPT_INV), 1)), "not contiguous in time")
             n = V.add(n, g.N)
         ax = 0
     else:
@@ -455,33 +479,35 @@ def spec_concatenate(c, signals, axis=0):
                 if ref is None:
                     ref = g.t0.sec
                 else:
-                    c.raise_if(V.lt(TAU_T, _absv(V.sub(ref, g.t0.sec))), REJECT, "different start times")
+                    gap = _absv(V.sub(ref, g.t0.sec))
+                    zone(V.And(V.le(1, V.mul(gap, g0.sr.val)), V.lt(TAU_T, gap)), V.And(V.le(gap, TAU_T), V.le(V.mul(V.mul(gap, g0.sr.val), ZONE_ACCEPT_INV), 1)), "different start times")
         ax = 1 if freq_axis else axis
         if not isinstance(ax, int) or isinstance(ax, bool):
             raise PyExc(REJECT, "bad axis")
     attrs = g0.attrs()
     attrs["start_time"] = None if ref is None else STime(V.simp(ref), "isot", 9)
     if radio:
-        for g in gs:
-            c.raise_if(V.Not(u_isclose(g0.bw.val, g.bw.val)), REJECT, "chan_bw differ")
+        for g in gs[1:]:
+            coarse = V.Not(u_isclose(g0.bw.val, g.bw.val))
+            if c.branch(coarse, "chan_bw differ by more than 1e-5"):
+                raise PyExc(REJECT, "chan_bw differ")
+            spread = V.mul(_absv(V.sub(g.bw.val, g0.bw.val)), g.nchan)
+            zone(V.le(g0.bw.val, spread), V.le(V.mul(spread, ZONE_ACCEPT_INV), g0.bw.val), "chan_bw differ", case="rate-or-bandwidth-mismatch-below-1e-5")
         if freq_axis:
             for x, y in zip(gs, gs[1:]):
                 d = V.sub(label(c, y, 0), label(c, x, V.sub(x.nchan, 1)))
-                c.raise_if(V.Not(u_isclose(d, g0.bw.val)), REJECT, "not contiguous in frequency")
+                off = _absv(V.sub(d, g0.bw.val))
+                zone(V.le(g0.bw.val, off), V.le(V.mul(off, ZONE_ACCEPT_INV), g0.bw.val), "not contiguous in frequency")
             f0, f1 = label(c, gs[0], 0), label(c, gs[-1], V.sub(gs[-1].nchan, 1))
         else:
             for g in gs[1:]:
                 c.raise_if(V.ne(g.nchan, g0.nchan), REJECT, "channel counts differ")
-                with_bad = ctx.fresh("badchan", "int")
-                # some channel label differs by more than the tolerance -> rejected
-                bad = V.And(V.le(0, with_bad), V.lt(with_bad, g0.nchan),
-                            V.Not(u_isclose(label(c, g0, with_bad), label(c, g, with_bad))))
-                allclose = ctx.fresh("labels_close", "bool")
-                ctx.assume(z3.Implies(z3.Not(allclose), V.Z(bad)) if is_sym(bad) else True, why="spec: witness of a differing label")
-                i_any = z3.Int(f"anychan!{next(ctx.counter)}")
-                ctx.assume(z3.Implies(allclose, z3.ForAll([i_any], z3.Implies(z3.And(i_any >= 0, i_any < V.Z(g0.nchan)),
-                           V.Z(u_isclose(label(c, g0, i_any), label(c, g, i_any)))))), why="spec: all labels close")
-                c.raise_if(z3.Not(allclose), REJECT, "different frequency channels")
+                # labels of same-count pieces with (nearly) equal chan_bw differ by (nearly) the same amount in
+                # every channel; the largest difference is at one of the two ends
+                d_lo = _absv(V.sub(label(c, g, 0), label(c, g0, 0)))
+                d_hi = _absv(V.sub(label(c, g, V.sub(g0.nchan, 1)), label(c, g0, V.sub(g0.nchan, 1))))
+                worst = V.vmax(d_lo, d_hi)
+                zone(V.le(g0.bw.val, worst), V.le(V.mul(worst, ZONE_ACCEPT_INV), g0.bw.val), "different frequency channels")
             f0, f1 = label(c, g0, 0), label(c, g0, V.sub(g0.nchan, 1))
         attrs["center_freq"] = Qty(V.div(ctx, V.add(f0, f1), 2), FREQ_DIM, g0.cf.unit)
         attrs["freq_align"] = "center"
@@ -502,10 +528,12 @@ def inst_concat():
     out = []
     cfgs = []
     for cls in ("Signal", "RadioSignal", "BasebandSignal"):
-        axes = [0, "time", 1] if cls == "Signal" else [0, 1, "freq", 2]
+        axes = [0, "time", 1, -2] if cls == "Signal" else [0, 1, "freq", 2, -3, -2]
         for axis in axes:
             for npieces, t0pat in ((1, "1"), (2, "11"), (2, "00"), (2, "01"), (2, "10"), (3, "111"), (3, "101"), (3, "011")):
                 if axis not in (0,) and npieces == 3 and t0pat != "111":
+                    continue
+                if isinstance(axis, int) and axis < 0 and (npieces, t0pat) not in ((2, "11"), (2, "01")):
                     continue
                 cfgs.append((cls, axis, npieces, t0pat))
     for cls, axis, npieces, t0pat in cfgs:
@@ -514,7 +542,10 @@ def inst_concat():
             sigs = [mk_signal(interp, ctx, f"p{k}", cls, extra_rank=extra, has_t0=(t0pat[k] == "1"), align=("bottom", "center", "top")[k % 3], nm=nm)
                     for k in range(npieces)]
             return (sigs,), {"axis": axis}
-        out.append(Instance(f"{cls},axis={axis},pieces={npieces},t0={t0pat}", build))
+        inst = Instance(f"{cls},axis={axis},pieces={npieces},t0={t0pat}", build)
+        if npieces == 3 and not (cls == "Signal" and axis == 0):
+            inst.tier = "thorough"      # three radio pieces: ~10x the paths of two; every clause is already exercised with two
+        out.append(inst)
     # rejected argument kinds
     def build(interp, ctx, nm):
         return ([],), {}
